@@ -793,7 +793,15 @@ fn complex_batch<const K: usize>(with_metadata: bool) {
     let raw: [u16; 2] = vany();
     let vals: [Option<u16>; 2] = [if raw[0] == 0 { None } else { Some(raw[0]) }, if raw[1] == 0 { None } else { Some(raw[1]) }];
     let bytes = must(ser.serialize_batch::<Option<u16>>(&vals[..K]), "serialize_batch refused");
-    let out = must(ser.deserialize_batch::<Option<u16>>(&bytes[..]), "deserialize_batch refused the serializer's own output");
+    let empty = [0u8; 4];
+    let out = if K == 0 {
+        // the empty batch is exactly the count word; decoding is run on a constant copy of those bytes
+        // (equal by the assertion), which keeps the reader's length fields concrete for CBMC
+        assert!(bytes.len() == 4 && bytes[0] == 0 && bytes[1] == 0 && bytes[2] == 0 && bytes[3] == 0, "empty batch is not the count word alone");
+        must(ser.deserialize_batch::<Option<u16>>(&empty[..]), "deserialize_batch refused the serializer's own output")
+    } else {
+        must(ser.deserialize_batch::<Option<u16>>(&bytes[..]), "deserialize_batch refused the serializer's own output")
+    };
     assert!(out.len() == K, "batch length not preserved");
     let mut i = 0;
     while i < K {
@@ -819,7 +827,7 @@ macro_rules! c13_complex_batch {
         }
     };
 }
-c13_complex_batch!(c13_complex_batch_k0_meta, quick, 24, 0, true);
-c13_complex_batch!(c13_complex_batch_k1_meta, quick, 24, 1, true);
+c13_complex_batch!(c13_complex_batch_k0_meta, quick, 4, 0, true);
+c13_complex_batch!(c13_complex_batch_k1_meta, thorough, 24, 1, true);
 c13_complex_batch!(c13_complex_batch_k0_fast, quick, 24, 0, false);
 c13_complex_batch!(c13_complex_batch_k2_fast, thorough, 24, 2, false);
